@@ -10,9 +10,9 @@ import OpyVerif.Model.Skel
 import OpyVerif.Model.Guards
 import OpyVerif.Model.Proto
 import OpyVerif.Model.Bench
-import OpyVerif.Generated.Constants
-import OpyVerif.Generated.Skeletons
-import OpyVerif.Generated.Guards
+import OpyVerif.Generated.ConstantsDefs
+import OpyVerif.Generated.SkeletonsDefs
+import OpyVerif.Generated.GuardsDefs
 /-
 Line-protocol driver: runs the *executable model definitions* on inputs sent by the Python
 harness, one request per line, one answer per line.  Imports models only (no Mathlib), so it
@@ -117,10 +117,16 @@ def step (d : DState) (line : String) : DState × String :=
     match parsePos p, v.toInt?, i.toNat? with
     | some p, some v, some i => machineEv d (.trialSwap p v i)
     | _, _, _ => (d, "bad-op")
-  | ["m.sweep", v, tie, r] =>
-    match v.toInt?, r.toNat? with
-    | some v, some r => machineEv d (.sweep v (tie == "1") r)
-    | _, _ => (d, "bad-op")
+  | ["m.sweep", v, tie, r, arg] =>
+    match v.toInt?, r.toNat?, parsePos arg with
+    | some v, some r, some arg =>
+      -- the sweep must evaluate exactly the current position of the agent under the cursor
+      match d.st with
+      | some s => match s.pop[s.cursor]? with
+        | some a => if a.pos == arg then machineEv d (.sweep v (tie == "1") r) else (d, "reject-arg " ++ showPos a.pos)
+        | none => (d, "reject-cursor")
+      | none => (d, "noinit")
+    | _, _, _ => (d, "bad-op")
   | ["m.clipall"] => machineEv d .clipAll
   | ["m.dump"] => machineEv d .dump
   | ["m.logs"] =>
